@@ -314,6 +314,11 @@ def run_check(prop, tier, seed, replay=None):
             pass
 
     disagreements = result.get('disagreements', [])
+    from vlib import util as _util
+    for lc_ in _util.LEG_CRASHES:
+        disagreements.append({'case': None, 'detail': f"the `{lc_['leg']}` leg of the correspondence raised on this tree: {lc_['traceback'].strip().splitlines()[-1]}",
+                              'impl': lc_['traceback'].splitlines()[-12:], 'model': []})
+    del _util.LEG_CRASHES[:]
     oracle_failures = result.get('oracle_failures', [])
 
     # ---- 3. verdicts ---------------------------------------------------------------------------
